@@ -10,6 +10,62 @@ P = {}
 def prop(pid, category, text, note, technique, thorough=True):
     P[pid] = dict(category=category, text=text, note=note, technique=technique, thorough=thorough)
 
+prop("C01", "exploration",
+     "Differential decoding of valid frames: every frame comes with the bytes that were compressed (reference compressor input under its whole configuration space: levels -7..22, window logs, LDM, checksum/content-size flags, minMatch 3, strategies, literal compression modes, target block sizes, flush patterns, pledged sizes; ZSTD_compressSequences parses; the format model's directed feature matrix of 157 plans and random plans - all confirmed by the reference decoder; the repository corpus). Each frame is decoded through StreamingDecoder, decode_blocks+collect, decode_all_to_vec and decode_from_to; output, content_size() and checksum presence/value must match what the independent frame walker reads from the header. Coverage floor over ~45 hooked decoder paths (every literals type/stream count/size format, every table mode incl. repeat, 1/2/3-byte sequence counts, all repeat offset cases, FCS widths). Release, debug-assertion, ASan builds; small frames also under Miri.",
+     "Held on the frames generated; not every feature combination. Trusted: reference decoder (libzstd 1.5.7), zspec model (self-tested against libzstd at the start of every run; a failure is INCONCLUSIVE).",
+     "runtime monitoring: differential execution against the encoder input, reference decoder and an independent format model; ASan; Miri")
+prop("C02", "exploration",
+     "Public API only: compress_to_vec / FrameCompressor reused for 1-6 frames with level switches and fragmenting readers; every frame is decoded by the reference decoder (which verifies the checksum), decode_all_to_vec and StreamingDecoder and compared with the input. Directed families for the data dependent paths (lengths 0, 1, around 1 KiB / 16 KiB literal thresholds, 128 KiB*k +-1, RLE blocks, raw fallback, treeless reuse, <=16 / >16 Huffman symbols, long and far matches) incl. a search steered by the encoder event log for near-break-even blocks that fall back to raw after their Huffman table was kept; plus random shapes. Coverage floor over 14 hooked encoder paths.",
+     "Levels Default/Better/Best are unimplemented!() and outside 'every implemented level'.",
+     "runtime monitoring: round trip through two independent decoders, workload steered by hooked encoder events")
+prop("C03", "exploration",
+     "Hostile inputs - mutations of ~500 valid seed frames (random and field-directed: the frame walker locates descriptor, block headers, literals headers, jump tables, Huffman/FSE descriptions, mode bytes, sequence counts, bitstreams, structural boundaries), 38 hostile synthesised plans (stale-state family, over-long blocks, out-of-range offsets), splices, random bytes, hostile dictionaries - through 11 entry points with legal call sequences (drain/query/reset after errors, abandon at 64 MiB of output), followed by a known-good frame on the same decoder. Oracles: panic capture, CPU budget + watchdog that confirms hangs in a child process, ASan build, Miri on small frames.",
+     "Absence of UB only on executed paths. Most cases run with set_max_window_size(8 MiB), a fixed share with the default limit.",
+     "runtime monitoring: fault injection on inputs with panic/CPU/sanitizer/interpreter oracles")
+prop("C05", "exploration",
+     "Per decode call, in capped child processes: growth of the held decoded bytes (hook verif_buffer_len) against budget + 128 KiB, absolute held bytes after StreamingDecoder::read against window + request + 128 KiB, acceptance of any block regenerating more than 128 KiB, peak live heap (counting allocator) against 4*(window + budget + 256 KiB) + 16 MiB. Workload: well-formed bombs (thousands of zero-bit RLE-mode sequences of maximal match length, 1 MiB RLE/raw literals, 200 KiB Huffman literals, 128 KiB + 1 blocks) x five drivers, and benign reference frames at window logs 10..26 plus the synthesised feature matrix (no false alarms).",
+     "The heap envelope is linear (x4) and checked on fresh decoders only; a child that hits the 1 GiB allocation cap identifies the case that broke the bound.",
+     "runtime monitoring: resource monitor (hooked buffer length, counting allocator, capped sub-processes)")
+prop("C06", "exploration",
+     "Driver programs (random and boundary-directed sequences of decode_blocks with every strategy / collect / read / collect_to_writer with full, short, zero-returning and failing sinks; StreamingDecoder::read with all buffer sizes; decode_from_to with chunk ends at header end, block ends, checksum +-4) run on valid frames while the tape (bytes handed out) is checked after every step: prefix of the true content, conservation with the hooked buffer length, read <= given, can_collect consistency; at the end tape == content, consumed == frame length (walker), bytes pulled from a counting source with trailing garbage == frame length. Release, debug-assertion and ASan builds.",
+     "Legal driver programs only (first decode_from_to chunk holds the frame header, no call after an error).",
+     "runtime monitoring: recorded tape + conservation invariant checked online after every API call")
+prop("C07", "exploration",
+     "For a history (completed / abandoned after k blocks / failed at every stage / failed resets; dictionary and plain; window limit changes) and a probe frame, the probe is driven with the same schedule on the used decoder and on a fresh one with the same dictionaries; the full observation lists (reset result, each step's Ok/Err + error text, counters, tape hash, checksums) must be equal. Probes: valid feature-matrix frames and 38 frames that read per-frame state before writing it (treeless first, Repeat mode first for LL/OF/ML, repeat offsets first, offsets before the start of output, dictionary reach).",
+     "After a failed reset only the reset result is compared; limits above 1 GiB are not used (an accepted window is reserved eagerly on reuse).",
+     "runtime monitoring: differential execution reused vs fresh decoder over recorded observation lists")
+prop("C08", "exploration",
+     "Decoder half: rides on every C06 schedule - an independent XXH64 over the tape is compared with get_calculated_checksum() once all output has been taken, and with the stored checksum of checksummed frames. Compressor half: every frame of the C02 workload (incl. compressor reuse) must end with the low 32 bits of XXH64(input).",
+     "Own XXH64 implementation (wlcore::xxh, cross-checked against the model's and known vectors at start-up).",
+     "runtime monitoring: shadow hasher over the recorded tape")
+prop("C09", "exploration",
+     "Seven dictionaries (ZDICT_trainFromBuffer on six generated sample families, the repository's) x inputs x levels x window logs 10..22 x checksum x dict-id flag on/off (force_dict) through three front ends with several dictionaries registered; output must equal the input. Missing dictionary => reset must fail with DictNotProvided{id}. Synthesised frames place the first match at every alignment around the dictionary/output boundary (inside, straddling, first byte, one byte too far => error) and at output == window-1 / window; a plain frame after a dictionary frame must decode and a plain frame with an offset before the start of output must fail.",
+     "Raw-content dictionaries cannot be loaded through the public API.",
+     "runtime monitoring: differential execution with reference-produced dictionary frames and model-synthesised boundary frames")
+prop("C10", "exploration",
+     "(a) frame + trailing bytes through a counting source: exactly frame length consumed; (b) concatenations of 1-6 frames with skippable frames (all 16 magics, 0..70 KiB) through decode_all / decode_all_to_vec with exact, larger and every undersized target (canary behind the target, vector len/capacity/prefix on failure); (c) trailing garbage, truncated skippable frames => error; (d) every strict prefix (every byte for frames <= 4 KiB, structural boundaries +-2 and random otherwise) through five front ends: never finished, delivered bytes are a prefix of the content, reader-based front ends end in an error.",
+     "Frame lengths and boundaries come from the independent frame walker. Empty prefix excluded for decode_all*.",
+     "runtime monitoring: counting source, canaries, exhaustive truncation sweep")
+prop("C12", "exploration",
+     "Decoder side: random/boundary normalized distributions for accuracy logs 5..9 (less-than-one probabilities, zero runs of every length, dominant symbols) serialised by the model, parsed by ruzstd and compared state by state with the RFC construction; predefined LL/OF/ML tables compared with the literal tables transcribed from libzstd. Encoder side: production histograms (1..53 symbols, Huffman weight histograms; max log 9/8/6, zero-bit avoidance) through build_table_from_data -> description -> ruzstd parser and model parser -> same table; single-state and two-interleaved-state streams decode to the input with all bits consumed; the three-state sequences section writer/reader round trip.",
+     "RFC construction = zspec::fse::build_dtable (checked against the reference literal tables).",
+     "runtime monitoring: differential execution against an executable RFC model")
+prop("C13", "exploration",
+     "Encoder side: all 255 alphabet sizes x placements x rank orders: code is complete (Kraft), prefix-free, depth <= 11; description (direct / FSE) read by ruzstd's decoder and by the model into the same lengths; 1- and 4-stream payloads decoded by the model; complete literals sections through the real section decoder and, inside a frame, the reference decoder. Decoder side: ALL direct weight vectors over {0..12} up to length 5 (6 in thorough) and a sample up to 255 weights (direct and FSE): accepted iff the rule holds, table == canonical table.",
+     "Validity rule = zspec::huf::weights_to_lengths (sum completes to a power of two, depth <= 11).",
+     "runtime monitoring: exhaustive/small-scope differential execution against an executable RFC model")
+prop("C15", "exploration",
+     "Every frame of the C02 workload is walked by the strict independent frame walker (header fields, reserved bits, block sizes stored and regenerated, one final block, section sizes, table descriptions, bitstreams consumed exactly, every offset <= window and <= produced data, nothing after the checksum) and checked against len(frame) <= len(x) + 6 + 3*(len(x)/128KiB + 1) + 4.",
+     "The walker enforces validity, not minimality.",
+     "runtime monitoring: offline structural checker (independent format model) over recorded compressor output")
+prop("C16", "exploration",
+     "A scripted matcher replays parses generated first (data synthesised from the parse, so every match is true) through the public Matcher trait: families for sequence counts around 127/128/0x7EFF/0x7F00/0x7FFF/0x8000/43689, single LL/ML/OF codes, extreme lengths, all-identical literals, raw fallback between Huffman blocks (stale-table situation, counted by a simulation over the encoder event log), far offsets over many blocks, blocks larger than the declared window, reuse across frames. compress() must not panic; frames must decode with ruzstd and the reference decoder.",
+     "The script honours the Matcher contract (ml >= 3, 1 <= offset <= min(window, data so far), exact tiling, blocks <= 128 KiB).",
+     "runtime monitoring: scripted fault-free environment (user matcher) with two decoders as oracle")
+prop("C18", "exploration",
+     "One generic driver (harness/feat4) built four times ({std,no_std} x {hash,no hash}) replays the same workload file: compressions through fragmenting / take-limited readers and short writers with Interrupted injected where the library retries it, compressor reuse; decodes of valid and damaged frames through StreamingDecoder (read / take / read_exact), decode_blocks + collect_to_writer, decode_from_to. An offline checker compares the four digest logs line by line: std == no_std exactly; hash vs no hash may differ only in descriptor bit 2, the 4 trailer bytes and the calculated checksum.",
+     "Interrupted is injected only on decoder sources and compressor drains (the compressor unwraps errors of its source in every build).",
+     "runtime monitoring: offline comparison of recorded digest logs from four builds")
 prop("C04", "exploration",
      "The real RingBuffer and DecodeBuffer (reached through feature gated wrappers) are driven with exactly the operations the decoder issues while an online checker compares them with a VecDeque/Vec byte queue after every operation (contents, len, free, slice lengths from (cap, head, tail), position invariants 1-4, cap == size of the live allocation, guard bytes around the allocation, poison value = never written byte showing up in live data, XXH64 over drained bytes). Workload: every (cap, head, tail) state of capacities 17/33/65 x every operation x every operand (exhaustive small scope, ~5M transitions), random histories with growth, random DecodeBuffer histories incl. dictionary straddle and short / failing sinks. The same workload runs in a debug-assertion build, under AddressSanitizer and (smaller) under Miri, which are the oracles for out-of-bounds / uninitialised / provenance errors on the executed paths.",
      "Held on the operations and states executed, not a proof for all capacities. Trusted: VecDeque model, wlcore checker, Miri/ASan. Preconditions of the unsafe API are respected (calls outside them would be false alarms).",
